@@ -14,7 +14,7 @@ try:
                            env=dict(os.environ, VERIF_SEED=os.environ.get("VERIF_SEED", "0")))
         viol = [l for l in r.stdout.splitlines() if l.startswith("VIOLATION")]
         notes = [l for l in r.stdout.splitlines() if l.startswith("  #")]
-        out[pid] = dict(exit=r.returncode, violations=len(viol), first=(notes[0][:300] if notes else ""), wall=round(time.time() - t, 1))
+        out[pid + os.environ.get('SEED_LABEL', '')] = dict(exit=r.returncode, violations=len(viol), first=(notes[0][:300] if notes else ""), wall=round(time.time() - t, 1))
         print(name, pid, "exit", r.returncode, "violations", len(viol), (" | ".join(n[:160] for n in notes[:3])))
 finally:
     subprocess.run(["git", "-C", "/repo", "checkout", "--", "."], check=True)
